@@ -280,15 +280,19 @@ func (client *client) setError(err error) {
 			if client.version == packets.Version5 {
 				if code, ok := err.(*codes.Error); ok {
 					if client.IsConnected() {
-						// send Disconnect
-						client.write(&packets.Disconnect{
+						// send Disconnect: offered only. Waiting for room in client.out here would block inside
+						// errOnce.Do (and with it every later setError caller) when the peer has stopped reading.
+						select {
+						case client.out <- &packets.Disconnect{
 							Version: packets.Version5,
 							Code:    code.Code,
 							Properties: &packets.Properties{
 								ReasonString: code.ReasonString,
 								User:         kvsToProperties(code.UserProperties),
 							},
-						})
+						}:
+						default:
+						}
 					}
 				}
 			}
